@@ -97,7 +97,7 @@ func reorderWKB(b []byte, pick func() bool) []byte {
 func wkbOnPanic(c Case) Event {
 	e := Event{"t": "Point", "ct": "XY", "c": []string{}}
 	return Event{"kind": c.str("kind"), "g": e, "bytes": []int{}, "bytes2": []int{}, "dec2": e, "dec2err": "", "dec": e, "decerr": "", "reenc": false, "append": false,
-		"trail": false, "value": false, "valid": false, "scan": []bool{}, "scansame": false}
+		"trail": false, "value": false, "valid": false, "scan": []bool{}, "scansame": false, "null": []bool{}}
 }
 
 func scanInto(i int, b []byte) (geom.Geometry, error) {
@@ -192,6 +192,16 @@ func wkbExec(c Case) Event {
 		}
 	}
 	ev["scan"], ev["scansame"] = scan, same
+	// NullGeometry: Scan(nil) gives the invalid (NULL) value, whose Value() is nil; Scan(bytes) behaves like Geometry.Scan
+	// and gives a valid value whose Value() is the same bytes
+	var ng geom.NullGeometry
+	e1 := ng.Scan(nil)
+	nv, e2 := ng.Value()
+	var ng2 geom.NullGeometry
+	e3 := ng2.Scan(bs)
+	nv2, e4 := ng2.Value()
+	nb2, _ := nv2.([]byte)
+	ev["null"] = []bool{e1 == nil && !ng.Valid, e2 == nil && nv == nil, (e3 == nil) == scan[7], e3 != nil || (ng2.Valid && e4 == nil && bytes.Equal(nb2, bs))}
 	ev["valid"] = g.Validate() == nil
 	ev["nt"] = !g.IsEmpty()
 	return ev
